@@ -76,8 +76,41 @@ func shapes() []ctxShape {
 	}
 }
 
-// definable: can a bash function with this name be defined at all
-func definable(name string) bool { return !strings.ContainsAny(name, " \t") }
+// definable: can a bash function with this name be defined at all. Names with blanks cannot;
+// for names with characters that are special to the shell the real bash is asked (under the
+// library's own shell options): the definition as the generated hooks write it, then the
+// look-up the framework itself uses.
+var (
+	definableCache = map[string]bool{}
+	probeLib       string
+)
+
+func definable(name string) bool {
+	if strings.ContainsAny(name, " \t") {
+		return false
+	}
+	if !strings.ContainsAny(name, "*?[]%\\$'\";-") {
+		return true
+	}
+	if v, ok := definableCache[name]; ok {
+		return v
+	}
+	script := "source " + probeLib + "\nfunction " + name + "() { :; }\ndeclare -F -- " + sq(name) + " >/dev/null && echo ZZDEFINABLE\n"
+	f, err := os.CreateTemp(filepath.Dir(probeLib), "probe-*.sh")
+	if err != nil {
+		panic(err)
+	}
+	_, _ = f.WriteString(script)
+	f.Close()
+	defer os.Remove(f.Name())
+	out, _ := exec.Command("bash", f.Name()).CombinedOutput()
+	v := strings.Contains(string(out), "ZZDEFINABLE")
+	definableCache[name] = v
+	return v
+}
+
+// sq quotes a string for the shell.
+func sq(s string) string { return "'" + strings.ReplaceAll(s, "'", `'\''`) + "'" }
 
 type c19env struct {
 	dir string
@@ -106,6 +139,7 @@ func setup() *c19env {
 	if err := os.WriteFile(libPath, []byte(lib), 0o644); err != nil {
 		panic(err)
 	}
+	probeLib = libPath
 	return &c19env{dir, libPath}
 }
 
@@ -124,26 +158,26 @@ func (e *c19env) run(id int, defs []handlerDef, contexts []map[string]any, args 
 	for _, d := range defs {
 		if d.status == -3 {
 			// a handler that leaves with `exit 0`: it succeeded, the run goes on with the next context
-			sb.WriteString(fmt.Sprintf("function %s() { echo \"%s ${BINDING_CONTEXT_CURRENT_INDEX}\" >> %s; exit 0; }\n", d.name, d.name, trace))
+			sb.WriteString(fmt.Sprintf("function %s() { printf '%%s %%s\\n' %s \"${BINDING_CONTEXT_CURRENT_INDEX}\" >> %s; exit 0; }\n", d.name, sq(d.name), trace))
 			continue
 		}
 		if d.status == -4 {
 			// a handler that switches strict mode off for itself: that is its own business
-			sb.WriteString(fmt.Sprintf("function %s() { set +e; echo \"%s ${BINDING_CONTEXT_CURRENT_INDEX}\" >> %s; false; return 0; }\n", d.name, d.name, trace))
+			sb.WriteString(fmt.Sprintf("function %s() { set +e; printf '%%s %%s\\n' %s \"${BINDING_CONTEXT_CURRENT_INDEX}\" >> %s; false; return 0; }\n", d.name, sq(d.name), trace))
 			continue
 		}
 		if d.status == -2 {
 			// a handler that reads its standard input to the end (kubectl apply -f -, cat, read ...)
-			sb.WriteString(fmt.Sprintf("function %s() { echo \"%s ${BINDING_CONTEXT_CURRENT_INDEX}\" >> %s; cat > /dev/null; return 0; }\n", d.name, d.name, trace))
+			sb.WriteString(fmt.Sprintf("function %s() { printf '%%s %%s\\n' %s \"${BINDING_CONTEXT_CURRENT_INDEX}\" >> %s; cat > /dev/null; return 0; }\n", d.name, sq(d.name), trace))
 			continue
 		}
 		if d.status < 0 {
 			// a failure in strict mode: a command in the middle of the handler fails; the library's
 			// `set -e` must end the handler (and the run) there
-			sb.WriteString(fmt.Sprintf("function %s() { echo \"%s ${BINDING_CONTEXT_CURRENT_INDEX}\" >> %s; cat /nonexistent/zzverif 2>/dev/null; echo \"%s-continued-after-failed-command ${BINDING_CONTEXT_CURRENT_INDEX}\" >> %s; return 0; }\n", d.name, d.name, trace, d.name, trace))
+			sb.WriteString(fmt.Sprintf("function %s() { printf '%%s %%s\\n' %s \"${BINDING_CONTEXT_CURRENT_INDEX}\" >> %s; cat /nonexistent/zzverif 2>/dev/null; printf '%%s %%s\\n' %s \"${BINDING_CONTEXT_CURRENT_INDEX}\" >> %s; return 0; }\n", d.name, sq(d.name), trace, sq(d.name+"-continued-after-failed-command"), trace))
 			continue
 		}
-		sb.WriteString(fmt.Sprintf("function %s() { echo \"%s ${BINDING_CONTEXT_CURRENT_INDEX}\" >> %s; return %d; }\n", d.name, d.name, trace, d.status))
+		sb.WriteString(fmt.Sprintf("function %s() { printf '%%s %%s\\n' %s \"${BINDING_CONTEXT_CURRENT_INDEX}\" >> %s; return %d; }\n", d.name, sq(d.name), trace, d.status))
 	}
 	sb.WriteString("hook::run \"$@\"\n")
 	hook := filepath.Join(e.dir, fmt.Sprintf("hook-%d.sh", id))
@@ -205,6 +239,12 @@ func TestVerifC19(t *testing.T) {
 	env := setup()
 	defer os.RemoveAll(env.dir)
 	bindings := []string{"pods", "my-binding", "Monitor pods in cache tier"}
+	// names with characters that mean something to the shell: a binding name is any string
+	special := []string{"a*b", "50%-full", "pods[0]", `back\slash`}
+	if vres.Thorough() {
+		special = append(special, "what?", "100%", "$HOME", "it's", `q"uote`, "semi;colon", "* * * * *")
+	}
+	bindings = append(bindings, special...)
 	shs := shapes()
 	r.Bound("context_types", len(shs))
 	r.Bound("binding_names", bindings)
@@ -246,6 +286,8 @@ func TestVerifC19(t *testing.T) {
 		for _, c := range cases {
 			if strings.Contains(c.binding, " ") {
 				blank = " binding-with-blanks"
+			} else if strings.ContainsAny(c.binding, "*?[]%\\$'\";") {
+				blank = " binding-with-shell-characters"
 			}
 		}
 		if strings.Join(got, ";") != strings.Join(wantTrace, ";") {
@@ -323,7 +365,11 @@ func TestVerifC19(t *testing.T) {
 	if !vres.Thorough() {
 		pick = []int{1, 2, 6, 11}
 	}
-	for _, b := range []string{"pods", "Monitor pods in cache tier"} {
+	arrayNames := []string{"pods", "Monitor pods in cache tier"}
+	if vres.Thorough() {
+		arrayNames = append(arrayNames, "a*b")
+	}
+	for _, b := range arrayNames {
 		for _, i1 := range pick {
 			for _, i2 := range pick {
 				for _, i3 := range append([]int{-1}, pick...) {
@@ -384,7 +430,7 @@ func TestVerifC19(t *testing.T) {
 								cases = append(cases, ctxCase{sh, b, def})
 							}
 							// with blanks every context is served by the one __main__: a per-position status is not expressible, keep only consistent cases
-							if strings.Contains(b, " ") {
+							if strings.Contains(b, " ") || !definable("__on_schedule::"+b) {
 								if bad > 0 {
 									continue
 								}
